@@ -116,6 +116,7 @@ type Sim struct {
 	Picks    int // scheduling decisions with >1 candidate
 	NonDflt  int // decisions where a non-zero choice was taken
 	MaxCands int
+	kick chan struct{}
 	// OnStep, if set, is called by RunUntil after every step while all simulated
 	// goroutines are blocked (invariant evaluation).
 	OnStep func()
@@ -224,6 +225,10 @@ func (s *Sim) park(g *G, site string, wk waitKind) {
 	g.since = s.Steps
 	g.parked = true
 	s.mu.Unlock()
+	select { // wake the driver if it is advancing the clock: time must not run past runnable work
+	case s.kick <- struct{}{}:
+	default:
+	}
 	<-g.wake
 	s.mu.Lock()
 	closed := s.closed
@@ -528,6 +533,10 @@ func (s *Sim) parkKeep(g *G, site string) {
 	g.since = s.Steps
 	g.parked = true
 	s.mu.Unlock()
+	select { // wake the driver if it is advancing the clock: time must not run past runnable work
+	case s.kick <- struct{}{}:
+	default:
+	}
 	<-g.wake
 	s.mu.Lock()
 	closed := s.closed
@@ -693,7 +702,7 @@ func DialContext(real func(ctx context.Context, network, addr string) (net.Conn,
 //
 //go:norace
 func New(cfg Config) *Sim {
-	s := &Sim{cfg: cfg, hash: 1469598103934665603, start: time.Now()}
+	s := &Sim{cfg: cfg, hash: 1469598103934665603, start: time.Now(), kick: make(chan struct{}, 1)}
 	if cfg.Sched == nil {
 		s.cfg.Sched = ReplayTape(nil)
 	}
@@ -912,9 +921,19 @@ func (s *Sim) Advance(d time.Duration) {
 		d = time.Nanosecond
 	}
 	s.Idle++
-	s.Clock += d
 	s.mix("T")
-	time.Sleep(d)
+	select { // drain a stale kick
+	case <-s.kick:
+	default:
+	}
+	begin := time.Now()
+	t := time.NewTimer(d)
+	select {
+	case <-t.C:
+	case <-s.kick: // a program timer fired and its goroutine parked: stop advancing right there
+	}
+	t.Stop()
+	s.Clock += time.Since(begin)
 	synctest.Wait()
 }
 
